@@ -354,6 +354,77 @@ fn make_jobs(seed: u64, n: usize, reals: &[(String, String)]) -> Vec<Job> {
         .collect()
 }
 
+/// libFuzzer campaign on /verif/fuzzhost/fuzz (target `c08`): corpus seeded with a sample of the
+/// structured jobs, fork mode so that a crash does not end the campaign; returns statistics
+/// and the texts of all saved artifacts (crash / timeout / oom)
+fn fuzz_leg(seed: u64, secs: u64, jobs: &[Job]) -> Result<(Value, Vec<String>), String> {
+    use std::process::Command;
+    let dir = "/verif/fuzzhost/fuzz";
+    let b = Command::new("cargo")
+        .args(["+nightly", "fuzz", "build", "c08"])
+        .current_dir(dir)
+        .env("CARGO_NET_OFFLINE", "true")
+        .output()
+        .map_err(|e| format!("cannot run cargo fuzz: {e}"))?;
+    if !b.status.success() {
+        return Err(format!("cargo fuzz build failed: {}", String::from_utf8_lossy(&b.stderr).lines().rev().take(5).collect::<Vec<_>>().join(" | ")));
+    }
+    let bin = format!("{dir}/target/x86_64-unknown-linux-gnu/release/c08");
+    let base = std::env::var("TMPDIR").unwrap_or_else(|_| "/tmp".into());
+    let work = format!("{base}/verif-scratch-fuzz-{}", std::process::id());
+    let _ = std::fs::remove_dir_all(&work);
+    let (corpus, arts) = (format!("{work}/corpus"), format!("{work}/artifacts"));
+    std::fs::create_dir_all(&corpus).map_err(|e| e.to_string())?;
+    std::fs::create_dir_all(&arts).map_err(|e| e.to_string())?;
+    // seed corpus: up to 1500 small structured inputs, spread over the classes
+    let mut n = 0;
+    for (i, j) in jobs.iter().enumerate() {
+        if j.text.len() <= 3000 && (i % (jobs.len() / 1500 + 1) == 0 || j.class == "replay") {
+            let _ = std::fs::write(format!("{corpus}/seed-{i}"), &j.text);
+            n += 1;
+        }
+    }
+    let dict: String = DICT.iter().filter(|d| !d.contains('"') && !d.contains('\\')).enumerate().map(|(i, d)| format!("kw{i}=\"{d}\"\n")).collect();
+    std::fs::write(format!("{work}/asn1.dict"), dict).map_err(|e| e.to_string())?;
+    let out = Command::new(&bin)
+        .arg(&corpus)
+        .args([
+            &format!("-max_total_time={secs}"),
+            &format!("-seed={}", (seed % 0xffff_fffe) + 1),
+            "-max_len=4000",
+            "-timeout=20",
+            "-rss_limit_mb=4096",
+            "-fork=16",
+            "-ignore_crashes=1",
+            "-ignore_timeouts=1",
+            "-ignore_ooms=1",
+            &format!("-artifact_prefix={arts}/"),
+            &format!("-dict={work}/asn1.dict"),
+        ])
+        .output()
+        .map_err(|e| format!("cannot run the fuzz target: {e}"))?;
+    let log = String::from_utf8_lossy(&out.stderr).to_string();
+    // fork mode prints "#<execs>: cov: <n> ft: <n> corp: <n> exec/s: <n> ..." lines
+    let last = log.lines().rev().find(|l| l.starts_with('#') && l.contains("cov:")).unwrap_or("").to_string();
+    let execs: u64 = last.trim_start_matches('#').split(':').next().and_then(|x| x.trim().parse().ok()).unwrap_or(0);
+    let mut texts = vec![];
+    if let Ok(rd) = std::fs::read_dir(&arts) {
+        let mut paths: Vec<_> = rd.flatten().map(|e| e.path()).collect();
+        paths.sort();
+        for p in paths.into_iter().take(200) {
+            if let Ok(bytes) = std::fs::read(&p) {
+                texts.push(String::from_utf8_lossy(&bytes).to_string());
+            }
+        }
+    }
+    let stats = json!({"seconds": secs, "seed_corpus_files": n, "executions": execs, "last_status_line": last, "artifacts": texts.len()});
+    let _ = std::fs::remove_dir_all(&work);
+    if execs == 0 {
+        return Err(format!("the campaign reported no executions: {}", log.lines().rev().take(4).collect::<Vec<_>>().join(" | ")));
+    }
+    Ok((stats, texts))
+}
+
 /// signature of a panic: source file (without line: fixes move lines) + message head
 fn panic_signature(msg: &str) -> String {
     // "<path>:<line>: <message>"
@@ -487,6 +558,27 @@ pub fn run(tier: Tier, seed: u64, replay: Option<String>) -> i32 {
     let results = worker::run_all(&texts, 16, timeout);
     for (j, r) in jobs.iter().zip(results) {
         handle(&mut ctx, j, r);
+    }
+    // coverage-guided leg (thorough tier, or VERIF_FUZZ_SECS=<n>): libFuzzer over the same oracle
+    let fuzz_secs: u64 = std::env::var("VERIF_FUZZ_SECS").ok().and_then(|v| v.parse().ok()).unwrap_or(if tier == Tier::Thorough { 900 } else { 0 });
+    if fuzz_secs > 0 {
+        match fuzz_leg(seed, fuzz_secs, &jobs) {
+            Ok((stats, artifacts)) => {
+                ctx.extra.insert("libfuzzer".into(), stats);
+                let arts: Vec<Job> = artifacts.into_iter().map(|t| Job { class: "libfuzzer-artifact", text: t }).collect();
+                let texts: Vec<String> = arts.iter().map(|j| j.text.clone()).collect();
+                // artifacts are re-judged by the worker pool: the verdict, signature and finding
+                // attribution are the same as for every other input
+                let results = worker::run_all(&texts, 16, timeout);
+                for (j, r) in arts.iter().zip(results) {
+                    handle(&mut ctx, j, r);
+                }
+            }
+            Err(e) => {
+                eprintln!("INFRA: libFuzzer leg not run: {e}");
+                ctx.inconclusive.push(format!("libFuzzer leg: {e}"));
+            }
+        }
     }
     let infra = !ctx.inconclusive.is_empty() && ctx.evaluations == 0;
     let code = ctx.finish();
